@@ -1,6 +1,7 @@
 package core
 
 import (
+	"bytes"
 	"encoding/binary"
 	"fmt"
 	"math"
@@ -43,6 +44,8 @@ type Verdict struct {
 	SkippedWithHolder int
 	// OutOfOrder: some struct had non-ascending field ids on the wire.
 	OutOfOrder bool
+	// IdenticalDup: repeated occurrences of a known field carrying the same bytes (value decided)
+	IdenticalDup int
 	// Known is the number of known fields decoded, at any level.
 	Known int
 	// Views: extents (offset, length) of the non-empty values of nocopy fields, in message order.
@@ -156,6 +159,7 @@ func (d *mdec) structBody(s *StructSpec, pos int, dest *SVal, depth int) (int, b
 	}
 	b := d.b
 	seen := map[uint16]bool{}
+	var firstRaw map[uint16][]byte
 	var unk []byte
 	var last int = -1
 	for {
@@ -189,13 +193,26 @@ func (d *mdec) structBody(s *StructSpec, pos int, dest *SVal, depth int) (int, b
 			pos = end
 			continue
 		}
-		if seen[id] {
-			d.gray(fmt.Sprintf("duplicate field id %d", id))
-		}
 		cur := dest.F[id]
 		nv, end, ok := d.fieldValue(s, f, pos+3, cur, depth+1)
 		if !ok {
 			return pos, false
+		}
+		if seen[id] {
+			// which occurrence counts is open - unless they carry the same bytes: then "exactly the
+			// transmitted value" is that value whichever way they are combined (a by-value struct
+			// decoded over its own earlier contents is flagged where it is decoded; a nocopy view
+			// may be of either occurrence)
+			if f.NoCopy || !bytes.Equal(firstRaw[id], b[pos+3:end]) {
+				d.gray(fmt.Sprintf("duplicate field id %d", id))
+			} else {
+				d.v.IdenticalDup++
+			}
+		} else {
+			if firstRaw == nil {
+				firstRaw = map[uint16][]byte{}
+			}
+			firstRaw[id] = b[pos+3 : end]
 		}
 		dest.F[id] = nv
 		if f.NoCopy {
